@@ -188,6 +188,7 @@ fn invariants(name: &str, cfg: &Value, res: &IndicatorResult, c: &Candle, h: &Hi
 fn check_indicator(d: &reg::IDesc, cfg: &dyn DC, cs: &[Candle], class: usize, seed: u64, r: &mut Report) {
 	let cfgv = cfg.ser().unwrap_or(Value::Null);
 	let Ok(Ok(mut inst)) = guard(|| cfg.init(&cs[0])) else { return };
+	r.case_named(d.name, &[12, reg::json_hash(&cfgv), reg::candles_hash(cs)]);
 	let n = max_period(&cfgv);
 	let keep = 2 * n + 300;
 	let mut h = Hist { cs: vec![cs[0]] };
@@ -303,6 +304,7 @@ fn check_methods(ctx: &Ctx, r: &mut Report) {
 				let par = crate::work::params_for(&m, len, &mut rng);
 				let xs = crate::work::stream_for(&m, class, ctx.seed ^ k << 8, 4 * len as usize + 200, len as usize);
 				let Ok(Ok(mut inst)) = guard(|| (m.ctor)(&par, &xs[0])) else { continue };
+				r.case_named(name, &[121, reg::json_hash(&par.show()), reg::ins_hash(&xs)]);
 				let mut mag = 0.0f64;
 				for (i, x) in xs.iter().enumerate() {
 					if let In::V(v) = x {
